@@ -7,12 +7,19 @@ pub struct Counting;
 pub static LIVE: AtomicI64 = AtomicI64::new(0);
 pub static ALLOCS: AtomicU64 = AtomicU64::new(0);
 pub static FREES: AtomicU64 = AtomicU64::new(0);
+/// high-water mark of LIVE since the last `reset_peak`
+pub static PEAK: AtomicI64 = AtomicI64::new(0);
+
+fn bump(by: i64) {
+    let now = LIVE.fetch_add(by, Ordering::Relaxed) + by;
+    PEAK.fetch_max(now, Ordering::Relaxed);
+}
 
 unsafe impl GlobalAlloc for Counting {
     unsafe fn alloc(&self, l: Layout) -> *mut u8 {
         let p = unsafe { System.alloc(l) };
         if !p.is_null() {
-            LIVE.fetch_add(l.size() as i64, Ordering::Relaxed);
+            bump(l.size() as i64);
             ALLOCS.fetch_add(1, Ordering::Relaxed);
         }
         p
@@ -25,7 +32,7 @@ unsafe impl GlobalAlloc for Counting {
     unsafe fn realloc(&self, p: *mut u8, l: Layout, new_size: usize) -> *mut u8 {
         let q = unsafe { System.realloc(p, l, new_size) };
         if !q.is_null() {
-            LIVE.fetch_add(new_size as i64 - l.size() as i64, Ordering::Relaxed);
+            bump(new_size as i64 - l.size() as i64);
         }
         q
     }
@@ -36,4 +43,10 @@ pub fn live() -> i64 {
 }
 pub fn outstanding() -> i64 {
     ALLOCS.load(Ordering::Relaxed) as i64 - FREES.load(Ordering::Relaxed) as i64
+}
+pub fn reset_peak() {
+    PEAK.store(LIVE.load(Ordering::Relaxed), Ordering::Relaxed);
+}
+pub fn peak() -> i64 {
+    PEAK.load(Ordering::Relaxed)
 }
